@@ -35,6 +35,8 @@ HOLDERS = [
     "José Álvarez", "张三", "R&D, Ltd.", "O'Reilly & Sons", "Jane (maintainer)", "GmbH & Co. KG", "The FOO Project Developers",
     "Ünïcödé Ltd.", "Jane Doe, John Doe", "x/y contributors", "Jane #1", "Müller + Söhne", "Ιωάννης Π.", "Eric", "Doe; Jane",
     "a.b@c.d", "Team «Rocket»", "J", "Açaí — Coop", "\U0001F600 Smile Corp",
+    # holders that begin like a copyright tag glued to more letters: holders like any other (no white space after the tag)
+    "Copyrighted Works Ltd.", "©tudio Ñandú GmbH", "(C)ompany & Sons",
 ]
 # holders that are themselves notices (kept verbatim by make_copyright_line)
 NOTICE_HOLDERS = ["Copyright 2019 Other Org", "SPDX-FileCopyrightText: 2018 Third Party", "© 2017 Fifth Ltd."]
